@@ -12,13 +12,13 @@ def _c13_small(args):
     lo, hi = rng_of(tx)
     ly, hy = rng_of(ty)
     xs = list(range(lo, hi + 1))
-    out = [x_bits.observe_bitwise(fx, np, [pid], 'not', tx, xs), x_bits.observe_bitwise(fx, np, [pid], 'not', tx, xs, hist=['inplace', 'view', 'elementwise', 'intfmt'][idx % 4])]
+    out = [x_bits.observe_bitwise(fx, np, [pid], 'not', tx, xs), x_bits.observe_bitwise(fx, np, [pid], 'not', tx, xs, hist=['inplace', 'view', 'elementwise', 'intfmt', 'fortran', 'transposed'][idx % 6])]
     for c in xs[:: max(1, len(xs) // 4)]:
         out.append(x_bits.observe_bitwise(fx, np, [pid], 'not', tx, [c], scalar=True))
     for op in ('and', 'or', 'xor'):
         for cy in range(ly, hy + 1):
             # x array (all codes) with y a scalar Fxp; and scalar with scalar on a rotating subset
-            out.append(x_bits.observe_bitwise(fx, np, [pid], op, tx, xs, ty=ty, cys=cy, hist=(['inplace', 'view', 'elementwise', 'intfmt'][(cy + idx) % 4] if (cy + idx) % 4 == 0 else None)))
+            out.append(x_bits.observe_bitwise(fx, np, [pid], op, tx, xs, ty=ty, cys=cy, hist=(['inplace', 'view', 'elementwise', 'intfmt', 'fortran', 'transposed'][((cy + idx) // 3) % 6] if (cy + idx) % 3 == 0 else None)))
             if (cy + idx) % 3 == 0 or tier == 'thorough':
                 out.append(x_bits.observe_bitwise(fx, np, [pid], op, tx, [xs[(cy + idx) % len(xs)]], ty=ty, cys=cy, scalar=True))
         if tx == ty:
@@ -79,7 +79,7 @@ def _c14_small(args):
                 for c in xs:
                     out.append(x_bits.observe_shift(fx, np, [pid], d, mode, tx, [c], n, ovf=ovf, scalar=True))
                 out.append(x_bits.observe_shift(fx, np, [pid], d, mode, tx, xs, n, ovf=ovf))
-                out.append(x_bits.observe_shift(fx, np, [pid], d, mode, tx, xs, n, ovf=ovf, hist=['inplace', 'view', 'elementwise', 'resign', 'intfmt'][(n + idx) % 5]))
+                out.append(x_bits.observe_shift(fx, np, [pid], d, mode, tx, xs, n, ovf=ovf, hist=['inplace', 'view', 'elementwise', 'resign', 'intfmt', 'fortran', 'transposed'][(n + idx) % 7]))
                 out.append(x_bits.observe_shift(fx, np, [pid], d, mode, tx, [xs[(n + idx) % len(xs)]], n, ovf=ovf, scalar=True, hist='inplace'))
                 for c in xs:
                     for dd in sorted({lo, hi, 0, 1, 2, 4} & set(xs)):
